@@ -332,6 +332,8 @@ type Plan struct {
 	X        map[string]any `json:"x,omitempty"`
 }
 
+func jsonUnmarshal(b []byte, v any) error { return json.Unmarshal(b, v) }
+
 func loadPlan(b []byte) (any, error) {
 	p := &Plan{}
 	if err := json.Unmarshal(b, p); err != nil {
